@@ -160,6 +160,19 @@ func constructedOnSelf(t *Term, fn *ssa.Function) bool {
 	return t.Has(func(x *Term) bool { return x.IsParam(fn, 0) })
 }
 
+// ascendingFromZero: the index of a loop visiting elements 0,1,2,… in order, in either SSA
+// shape: `for i := 0; …; i++` gives phi{0 | µ+1}; `for range` gives phi{-1 | µ}+1.
+func ascendingFromZero(t *Term) bool {
+	s := t.String()
+	if t.Op == "phi" {
+		return strings.Contains(s, "c:0") && strings.Contains(s, "+c:1")
+	}
+	if t.Op == "binop" && t.Name == "+" && len(t.Args) == 2 && t.Args[0].Op == "phi" && t.Args[1].Op == "const" && t.Args[1].Name == "1" {
+		return strings.Contains(t.Args[0].String(), "c:-1")
+	}
+	return false
+}
+
 func checkKeyHasherDo(p *Program, do *ssa.Function) string {
 	var reset, sum ssa.Instruction
 	var writes []ssa.Instruction
@@ -190,7 +203,7 @@ func checkKeyHasherDo(p *Program, do *ssa.Function) string {
 		return "Reset does not precede the first Write on every path"
 	}
 	w := p.TermOf(callCommon(writes[0]).Args[0])
-	okW := w.Op == "index" && w.Args[0].IsParam(do, 1) && w.Args[1].Op == "phi" && strings.Contains(w.Args[1].String(), "c:0") && strings.Contains(w.Args[1].String(), "+c:1")
+	okW := w.Op == "index" && w.Args[0].IsParam(do, 1) && ascendingFromZero(w.Args[1])
 	if !okW {
 		return "Write is given " + w.String() + ", expected data[i] for i = 0,1,…"
 	}
